@@ -203,7 +203,11 @@ async fn do_sql(db: &Db, req: &Value) -> Value {
                 None
             };
             match db.ctx.sql(sql).await {
-                Ok(r) => result_json(&r.schema, &r.batches, plan),
+                Ok(r) => {
+                    let mut v = result_json(&r.schema, &r.batches, plan);
+                    v["spilled"] = json!(r.metrics.spill_metrics.as_ref().map(|m| m.bytes_spilled).unwrap_or(0));
+                    v
+                }
                 Err(e) => err_json(&e),
             }
         }
